@@ -44,7 +44,7 @@ fn plan(prop: &str, tier: &str) -> Plan {
     let mut p = if quick {
         Plan { big_cases: 16, random_cases: 9_600, long_cases: 320, long_ops: 200, enum_empty: vec![(4, 4)], enum_shapes: vec![(3, 2), (4, 1), (5, 1)] }
     } else {
-        Plan { big_cases: 96, random_cases: 360_000, long_cases: 40_000, long_ops: 250, enum_empty: vec![(5, 4)], enum_shapes: vec![(4, 2), (5, 1), (6, 1)] }
+        Plan { big_cases: 64, random_cases: 160_000, long_cases: 16_000, long_ops: 250, enum_empty: vec![(5, 4)], enum_shapes: vec![(4, 2), (5, 1), (6, 1)] }
     };
     if structural && quick {
         p.random_cases = 6_400;
@@ -87,8 +87,8 @@ fn plan(prop: &str, tier: &str) -> Plan {
         }
         "C09" | "C10" | "C11" | "C07" | "C08" => {
             if !quick {
-                p.random_cases = 200_000;
-                p.long_cases = 20_000;
+                p.random_cases = 160_000;
+                p.long_cases = 16_000;
             }
         }
         _ => {}
